@@ -18,6 +18,16 @@ pub unsafe fn FD_SET(fd: i32, set: *mut fd_set) {
     (*set).bits[(fd / 64) % 16] |= 1 << (fd % 64);
 }
 
-pub unsafe fn select(nfds: i32, _readfds: *mut fd_set, _writefds: *mut fd_set, _exceptfds: *mut fd_set, _timeout: *mut timeval) -> i32 {
-    crate::c20::model_select(nfds - 1)
+pub unsafe fn FD_ZERO(set: *mut fd_set) {
+    (*set).bits = [0; 16];
+}
+
+pub unsafe fn FD_ISSET(fd: i32, set: *const fd_set) -> bool {
+    let fd = fd as usize;
+    (*set).bits[(fd / 64) % 16] & (1 << (fd % 64)) != 0
+}
+
+/// `timeout` null = wait for ever; otherwise the wait may end with 0 when nothing is readable
+pub unsafe fn select(nfds: i32, _readfds: *mut fd_set, _writefds: *mut fd_set, _exceptfds: *mut fd_set, timeout: *mut timeval) -> i32 {
+    crate::c20::model_select(nfds - 1, !timeout.is_null())
 }
